@@ -18,7 +18,7 @@ import random
 
 import numpy as np
 
-from .. import core, motlutil
+from .. import argguard, core, motlutil
 
 FIELDS = motlutil.FIELDS
 U = 8.0
@@ -29,7 +29,7 @@ OTHER = [f for f in FIELDS if f not in POSF + ["subtomo_id", "tomo_id"]]
 
 
 def cfg(cases, emit):
-    return "SPECIFICATION Spec\nCONSTANTS\n Cases <- %s\n%s\nCONSTRAINT %s\n" % (
+    return "SPECIFICATION Spec\nCONSTANTS\n Cases <- %s\n%s\nPROPERTY C09_ArgumentsUntouched\nCONSTRAINT %s\n" % (
         cases, "\n".join("INVARIANT " + i for i in INVS), emit)
 
 
@@ -66,14 +66,44 @@ def expected_row(r):
     return e
 
 
+def array_form(arr, k):
+    """The same numbers in another accepted storage form of an ndarray (k % 6: C float64, Fortran order, read-only,
+    float32, int64 where every value is integral, non-contiguous view)."""
+    arr = np.asarray(arr, dtype=float)
+    m = k % 6
+    if m == 1:
+        return np.asfortranarray(arr)
+    if m == 2:
+        out = arr.copy()
+        out.setflags(write=False)
+        return out
+    if m == 3 and np.array_equal(arr.astype(np.float32).astype(float), arr):
+        return arr.astype(np.float32)
+    if m == 4 and np.array_equal(np.rint(arr), arr):
+        return arr.astype(np.int64)
+    if m == 5:
+        big = np.zeros(tuple(2 * n for n in arr.shape), dtype=float)
+        view = big[tuple(slice(None, None, 2) for _ in arr.shape)]
+        view[...] = arr
+        return view
+    return arr.copy()
+
+
 def dims_arg(dims, variant, workdir):
+    """The dimension table (tomo_id x y z per row) as ndarray (any storage form), DataFrame (float or integer columns,
+    default or gapped row labels) or text file."""
     import pandas as pd
     table = np.array([[d[0], d[1], d[2], d[3]] for d in dims], dtype=float)
     v = variant % 4
     if v == 0:
-        return table
+        return array_form(table, variant // 4)
     if v in (1, 2):
-        return pd.DataFrame(table, columns=["tomo_id", "x", "y", "z"])
+        df = pd.DataFrame(table, columns=["tomo_id", "x", "y", "z"])
+        if (variant // 4) % 3 == 1:
+            df = df.astype(np.int64)
+        if (variant // 4) % 2 == 1:
+            df.index = [10 + 3 * i for i in range(len(df))]
+        return df
     path = os.path.join(workdir, "dims_%d_%d.txt" % (os.getpid(), variant % 7))
     with open(path, "w") as fh:
         for r in table:
@@ -97,25 +127,78 @@ class Args:
         self.dims = None
         self.pts = {}
         self.masks = {}
+        self.trims = {}
+        self.functional = False
+        self.guards = []          # (name, Guard): snapshot of every argument object, taken when it was built
+
+    def keep(self, name, obj):
+        self.guards.append((name, argguard.Guard(**{name: obj})))
+        return obj
+
+    def changed(self):
+        """None, or what some call did to one of the caller's argument objects."""
+        for name, g in self.guards:
+            why = g.changed()
+            if why:
+                return why
+        return None
 
     def get_dims(self):
         if self.dims is None:
-            self.dims = dims_arg(self.case["dims"], self.variant, self.workdir)
+            self.dims = self.keep("dimensions", dims_arg(self.case["dims"], self.variant, self.workdir))
         return self.dims
 
+    def get_trim(self, op):
+        """(start, end) as lists, tuples, integer or float arrays - the same objects for a repeated trim."""
+        key = json.dumps([op["start"], op["end"]])
+        if key not in self.trims:
+            v = self.variant % 5
+            if v == 0:
+                se = (np.array(op["start"]), np.array(op["end"]))
+            elif v == 1:
+                se = (list(op["start"]), list(op["end"]))
+            elif v == 2:
+                se = (np.array(op["start"], dtype=float), tuple(op["end"]))
+            elif v == 3:
+                se = (tuple(float(x) for x in op["start"]), array_form(op["end"], 2))
+            else:
+                se = (array_form(op["start"], 3), [float(x) for x in op["end"]])
+            self.trims[key] = self.keep("trim_coordinates", se)
+        return self.trims[key]
+
     def get_points(self, op):
+        """The reference points as the DataFrame the call takes: columns in any order, further columns present,
+        integer tomogram numbers, non-default row labels."""
         import pandas as pd
         key = json.dumps(op["pts"])
         if key not in self.pts:
-            self.pts[key] = pd.DataFrame({"tomo_id": [float(q[0]) for q in op["pts"]], "x": [q[1] / U for q in op["pts"]],
-                                          "y": [q[2] / U for q in op["pts"]], "z": [q[3] / U for q in op["pts"]]})
+            df = pd.DataFrame({"tomo_id": [float(q[0]) for q in op["pts"]], "x": [q[1] / U for q in op["pts"]],
+                               "y": [q[2] / U for q in op["pts"]], "z": [q[3] / U for q in op["pts"]]})
+            v = self.variant // 2
+            if v % 4 == 1:
+                df = df[["z", "tomo_id", "y", "x"]]
+            elif v % 4 == 2:
+                df["score"] = 0.5
+                df["object_id"] = 7.0
+                df = df[["score", "x", "y", "z", "object_id", "tomo_id"]]
+            elif v % 4 == 3:
+                df["tomo_id"] = df["tomo_id"].astype(np.int64)
+            if (v // 4) % 2 == 1 and len(df):
+                df.index = [5 + 2 * ((i * 3 + 1) % len(df)) for i in range(len(df))] if len(df) % 3 else [7 + i for i in range(len(df))]
+            self.pts[key] = self.keep("points", df)
         return self.pts[key]
 
     def stored(self, arr, form, t):
         """One mask in the storage form the call uses: the array itself or the path of a file written here from
         scratch (independent writers of mbt/parsers.py: payload with x fastest, i.e. voxel (i, j, k) at i + nx (j + ny k))."""
         if form == "array":
-            return arr
+            # any accepted ndarray: C / Fortran order, read-only, float32 / float64 / integer / boolean voxels
+            k = (self.variant // 3 + (0 if t == "all" else int(t))) % 7
+            if k == 6:
+                return arr > 0.5
+            if k == 4:
+                return arr.astype(np.uint8)
+            return array_form(arr, k) if k != 3 else arr.astype(np.float32)
         from .. import parsers
         path = os.path.join(self.workdir, "mask_%d_%d_%s.%s" % (os.getpid(), self.variant % 1000, t, form))
         dims = tuple(int(v) for v in arr.shape)
@@ -142,18 +225,19 @@ class Args:
             forms = ["array", "em", "mrc", "rec"]
             fm = {t: (form if form != "mixed" else forms[(self.variant + j) % 4]) for j, t in enumerate(tl)}
             same = all(arrs[tl[0]].shape == arrs[t].shape and np.array_equal(arrs[tl[0]], arrs[t]) for t in tl)
-            tomo_list = tl if self.variant % 2 else np.array(tl)
+            tomo_list = [tl, np.array(tl), [float(t) for t in tl], np.array(tl, dtype=float)][self.variant % 4]
             if same and self.variant % 3 == 0:
                 arg = self.stored(arrs[tl[0]], fm[tl[0]], "all")
             else:
                 arg = [self.stored(arrs[t], fm[t], str(t)) for t in tl]
-            self.masks[key] = (tomo_list, arg)
+            self.masks[key] = self.keep("tomo_list_and_masks", (tomo_list, arg))
         return self.masks[key]
 
 
 def apply_op(cm, motl, op, args, variant):
     """Performs the filter call on the live Motl; returns the Motl holding the result."""
     name = op["name"]
+    args.functional = False       # set by the inplace=False variants: the list the method is called on must not change
     # every optional argument appears given and omitted (and, where it is a default, given with its default value)
     if name == "oob":
         d = args.get_dims()
@@ -184,13 +268,11 @@ def apply_op(cm, motl, op, args, variant):
             motl.remove_out_of_bounds_particles(d, "whole", box)
         return motl
     if name == "trim":
-        v = variant % 3
-        if v == 0:
-            motl.adapt_to_trimming(np.array(op["start"]), np.array(op["end"]))
-        elif v == 1:
-            motl.adapt_to_trimming(list(op["start"]), list(op["end"]))
+        start, end = args.get_trim(op)
+        if variant % 2:
+            motl.adapt_to_trimming(start, end)
         else:
-            motl.adapt_to_trimming(trim_coord_start=np.array(op["start"], dtype=float), trim_coord_end=tuple(op["end"]))
+            motl.adapt_to_trimming(trim_coord_start=start, trim_coord_end=end)
         return motl
     if name == "points":
         pts = args.get_points(op)
@@ -199,10 +281,12 @@ def apply_op(cm, motl, op, args, variant):
         if v == 0:
             motl.clean_by_distance_to_points(pts, r)
         elif v == 1:
+            args.functional = True
             return motl.clean_by_distance_to_points(pts, r, inplace=False)
         elif v == 2:
             motl.clean_by_distance_to_points(pts, r, feature_id="tomo_id", inplace=True, output_file=None)
         elif v == 3:
+            args.functional = True
             return motl.clean_by_distance_to_points(pts, radius_in_voxels=r, feature_id="tomo_id", inplace=False, output_file=None)
         elif v == 4:
             motl.clean_by_distance_to_points(pts, r, "tomo_id")
@@ -213,8 +297,10 @@ def apply_op(cm, motl, op, args, variant):
         tomo_list, arg = args.get_masks(op)
         v = variant % 5
         if v == 0:
+            args.functional = True
             return motl.clean_by_tomo_mask(tomo_list, arg, inplace=False)
         if v == 1:
+            args.functional = True
             return motl.clean_by_tomo_mask(tomo_list, arg, inplace=False, output_file=None)
         if v == 2:
             motl.clean_by_tomo_mask(tomo_list, arg, inplace=True, output_file=None)
@@ -226,15 +312,30 @@ def apply_op(cm, motl, op, args, variant):
     raise core.MachineryError("unknown op %r" % (op,))
 
 
+def read_only_calls(cm, motl, args):
+    from cryocat import ioutils
+    motl.get_coordinates()
+    motl.get_unique_values("tomo_id")
+    motl.get_feature("subtomo_id")
+    str(motl)
+    cm.Motl.load(motl)
+    if args.dims is not None:
+        ioutils.dimensions_load(args.dims)
+    motl.get_motl_subset(1.0, reset_index=False, return_df=True)
+
+
 def run_case(ctx, case, steps, variant, kind):
     """case: JSON form of a SpatialFilter case (ops = the calls, made one after the other on the same Motl with the
     same argument objects); steps[k] = {ps, status, amb}: the list after call k+1 as computed by TLC."""
     from cryocat import cryomotl as cm
     rec = {"kind": kind, "case": case, "steps": steps, "variant": variant}
-    motl = cm.Motl(motlutil.vary_index(rows_to_df(case["ps"]), variant // 3))
+    # the particle table: default / permuted / gapped row labels, integer id columns, any column order
+    motl = cm.Motl(motlutil.repeat_labels(
+        motlutil.vary_columns(motlutil.vary_index(rows_to_df(case["ps"]), variant // 3), variant // 2), variant // 5))
     args = Args(case, variant, ctx.workdir)
     cur = case["ps"]
     counted = False
+    earlier = []            # guards of lists that earlier calls of the case returned or left behind
     for k, op in enumerate(case["ops"]):
         if k >= len(steps):
             break
@@ -245,12 +346,43 @@ def run_case(ctx, case, steps, variant, kind):
         if exp["amb"]:
             ctx.discard("ambiguous_" + op["name"])
             break
+        if (variant + k) % 4 == 2:
+            # public calls that only read, between the filter calls: nothing may leak from them
+            g = argguard.Guard(table=motl.df)
+            _, err = core.call_guarded(read_only_calls, cm, motl, args)
+            why = err or g.changed() or args.changed()
+            if why:
+                ctx.fail("call_raises" if err else "C09_ArgumentsUntouched", "read-only calls before call %d: %s" % (k + 1, why),
+                         rec, dict(sig, op="read_only"))
+                break
+        before = argguard.Guard(table=motl.df)
         out, err = core.call_guarded(apply_op, cm, motl, op, args, variant + k)
         if not counted:
             ctx.ran(rec)
             counted = True
         if err is not None:
             ctx.fail("call_raises", "call %d %s: %s" % (k + 1, json.dumps(op)[:200], err), rec, sig)
+            break
+        why = args.changed()
+        if why:
+            ctx.fail("C09_ArgumentsUntouched", "call %d %s changed the caller's argument: %s" % (k + 1, op["name"], why), rec,
+                     dict(sig, **{"class": "argument_changed"}))
+            break
+        if args.functional:
+            why = before.changed()          # inplace=False: the list the method was called on stays as it was
+            if why:
+                ctx.fail("C09_ArgumentsUntouched", "call %d %s (inplace=False) changed the list it was called on: %s" % (
+                    k + 1, op["name"], why), rec, dict(sig, **{"class": "self_changed"}))
+                break
+            earlier.append(("list before call %d" % (k + 1), before))
+        gone = None
+        for label, g in earlier[:-1] if args.functional else earlier:
+            gone = g.changed()
+            if gone:
+                ctx.fail("C09_EarlierResultsUntouched", "call %d %s changed the %s: %s" % (k + 1, op["name"], label, gone), rec,
+                         dict(sig, **{"class": "earlier_result_changed"}))
+                break
+        if gone:
             break
         motl = out
         verdict = compare(ctx, motl, cur, op, exp, rec, sig)
@@ -435,6 +567,14 @@ def gen_points(rng, ps, tomos, dmap):
             t = rng.choice(tomos + [9])
             pos = [rng.randint(0, 8 * dmap.get(t, [10, 10, 10])[i]) for i in range(3)]
         pts.append([t] + pos)
+    r = rng.random()
+    if r < 0.2:                                         # a point coinciding with a particle (distance 0)
+        src = rng.choice(ps)
+        pts.append([src[1]] + [src[2 + i] + src[5 + i] for i in range(3)])
+    if r > 0.8 and pts:                                 # the same point listed twice
+        pts.append(list(rng.choice(pts)))
+    if 0.5 < r < 0.53:                                  # no reference point at all: nothing is removed
+        pts = []
     rng.shuffle(pts)
     return pts, radius
 
@@ -478,7 +618,7 @@ def gen_case(rng, idx, big):
     for name in names:
         if name == "oob":
             kind = rng.choice(["center", "whole", "whole"]) if len(names) > 1 else rng.choice(["center", "whole"])
-            box = rng.choice([2, 4, 6, 8, 10, 16]) if (kind == "whole" or rng.random() < 0.5) else 0
+            box = rng.randint(1, 16) if (kind == "whole" or rng.random() < 0.5) else 0
             ops.append({"name": "oob", "kind": kind, "box": box})      # centre + box: the box must be ignored
         elif name == "trim":
             m = [max(d[i + 1] for d in dims) for i in range(3)]
@@ -492,7 +632,7 @@ def gen_case(rng, idx, big):
         elif name == "points":
             if pts is None:
                 pts, tie_r = gen_points(rng, ps, tomos, dmap)
-            rs = [4, 8, 12, 17, 24, 33, 40]
+            rs = [0, 4, 8, 12, 17, 24, 33, 40]          # radius 0 removes coincident particles only
             if tie_r is not None and rng.random() < 0.8:
                 ops.append({"name": "points", "pts": pts, "r": tie_r})
                 tie_r = None if rng.random() < 0.5 else tie_r
@@ -505,6 +645,32 @@ def gen_case(rng, idx, big):
     return {"id": idx, "ps": ps, "dims": dims, "ops": ops}
 
 
+def box_sweep_cases(first_id):
+    """Every box size 1..16 x boundary type: particles exactly on, one lattice step and one voxel either side of the
+    margin the box size derives (ceil(box/2) voxels from each face), on every axis and both faces."""
+    cases = []
+    dims = [[2, 40, 37, 45], [5, 33, 48, 36]]
+    for box in range(1, 17):
+        for kind in ("whole", "center"):
+            h = 8 * ((box + 1) // 2) if kind == "whole" else 0
+            ps = []
+            pid = 0
+            for t, dx, dy, dz in dims:
+                d = [dx, dy, dz]
+                mid = [8 * (v // 2) for v in d]
+                for axis in range(3):
+                    for margin in (8 * d[axis] - h, h, 8 * d[axis], 0):          # upper / lower margin, the faces
+                        for delta in (-8, -1, 0, 1, 8):
+                            c = list(mid)
+                            c[axis] = margin + delta
+                            s_ = [0, 0, 0] if (pid % 3) else [3, -2, 5]
+                            pid += 1
+                            ps.append([pid, t] + [c[i] - s_[i] for i in range(3)] + s_)
+            cases.append({"id": first_id + len(cases), "ps": ps, "dims": dims,
+                          "ops": [{"name": "oob", "kind": kind, "box": box}]})
+    return cases
+
+
 def run(ctx):
     ctx.rule = ("L2 small scope: every case of MC_SpatialFilter (one coordinate sweeps both faces of each axis of two "
                 "tomograms, 3 x+shift splits, 10 filter calls) replayed; L2 random scope: lattice lists of 1..60 particles "
@@ -512,7 +678,7 @@ def run(ctx):
                 "by TLC from SpatialFilter.tla.  distinct = distinct (list, dimensions, call) cases")
     ctx.assumptions += [
         "inside <=> 0 <= c < dim on every axis (complete position c, the particle's own tomogram)",
-        "'whole' uses half-width box/2; box sizes are even (odd sizes flagged ambiguous by the spec and not run); "
+        "'whole' uses half-width ceil(box/2) voxels for box sizes of either parity (every size 1..16 is swept); "
         "a box size given with boundary type 'center' is ignored",
         "trimming acts on x,y,z: kept iff start <= x <= end, survivors get x - (start - 1)",
         "reference points remove at distance <= r, including particles exactly on the radius (lattice coordinates and "
@@ -546,6 +712,9 @@ def run(ctx):
         n = ctx.pick(500, 20000)
         rng = random.Random(ctx.seed * 104729 + 9)
         cases = [gen_case(rng, i + 1, big=(i % 4 == 0)) for i in range(n)]
+        cases += box_sweep_cases(n + 1)
+        n = len(cases)
+        ctx.exhaustive["box_sizes_1_16_x_boundary_types"] = True
         path = os.path.join(ctx.sub("file"), "cases.ndjson")
         with open(path, "w") as fh:
             for c in cases:
